@@ -22,5 +22,5 @@ CONSTANTS
 INVARIANTS Inv_C15 C15_CountersTrackDelivery
 INVARIANTS TypeOK Inv_C02 C02_Independent C02_Buf50First
 INVARIANTS Inv_C06 Inv_C06Drain C06_NotStuckAfterDeadline
-INVARIANTS C18_NoLeak C18_ServeWaits C18_SocketsFollowHandler
+INVARIANTS C18_NoLeak C18_AllReturned C18_ServeWaits C18_SocketsFollowHandler
 VIEW View
